@@ -501,9 +501,9 @@ def convert_program(part, bench, group, name, kind, payload):
                                '%s: LOAD/SAVE raised %r' % (name, r1.exc or r2.exc), case)
                 continue
             refpath = bench.disk_path(refname)
+            # a LOAD or SAVE that fails with a BASIC error is part of the comparison: the converter
+            # performs the same two statements, so whatever file results must be the same
             ref = open(refpath, 'rb').read() if os.path.exists(refpath) else None
-            if r1.err is not None or r2.err is not None:
-                ref = None
             outpath = os.path.join(bench.dir, 'conv_%s_%s.out' % (infmt.decode(), mode.decode()))
             # the mode letter is accepted in either case: lower case for ASCII inputs, upper otherwise
             mode_arg = mode.decode().lower() if infmt == b'A' else mode.decode()
@@ -518,16 +518,17 @@ def convert_program(part, bench, group, name, kind, payload):
                     continue
                 raise
             got = open(outpath, 'rb').read() if os.path.exists(outpath) else None
+            if r1.err is not None or r2.err is not None:
+                part.outcome('convert-with-basic-error-%s-%s' % (r1.err, r2.err))
             if ref is None:
-                part.outcome('convert-session-rejected')
                 if got:
-                    part.violation('convert/output-where-session-fails/%s-to-%s' % (infmt.decode(), mode.decode()),
-                                   '%s: Session LOAD/SAVE fails (%r, %r) but the converter wrote %d bytes'
+                    part.violation('convert/output-where-session-writes-none/%s-to-%s' % (infmt.decode(), mode.decode()),
+                                   '%s: Session LOAD/SAVE (errors %r, %r) writes no file but the converter wrote %d bytes'
                                    % (name, r1.err, r2.err, len(got)), case)
                 continue
             if got != ref:
                 n = min(len(got or b''), len(ref))
-                first = next((i for i in range(n) if got[i] != ref[i]), n)
+                first = next((i for i in range(n) if (got or b'')[i] != ref[i]), n)
                 part.violation('convert/differs/%s-to-%s/%s' % (infmt.decode(), mode.decode(), group),
                                '%s: --convert=%s of the %s file gives %s bytes, SAVE in a Session %d bytes; '
                                'first difference at offset %d' % (name, mode.decode(), infmt.decode(),
